@@ -10,6 +10,7 @@ from .._interfaces import IDilator, IDilationManager, ISend, ITerminator
 from ..util import dict_to_bytes, bytes_to_dict, bytes_to_hexstr, provides
 from ..observer import OneShotObserver
 from .._key import derive_key
+from ..errors import WormholeClosed
 from .subchannel import (_WormholeAddress,
                          SubchannelConnectorEndpoint,
                          SubchannelDemultiplex,
@@ -983,6 +984,7 @@ class Dilator:
         self._pending_wormhole_versions = None
         self._pending_inbound_dilate_messages = deque()
         self._did_dilate = Once(CanOnlyDilateOnceError)
+        self._stopped = False
 
     def wire(self, sender, terminator):
         self._S = ISend(sender)
@@ -999,6 +1001,11 @@ class Dilator:
         # transit_relay_location, no_listen, etc would all remain
         # unchanged)
         self._did_dilate()
+        if self._stopped:
+            # the wormhole has been closed (or is past the point where the
+            # Terminator stops us): a Manager started now would never be
+            # stopped, and would leave listeners behind
+            raise WormholeClosed("dilate() called after the wormhole was closed")
 
         if self._manager is None:
             # build the manager right away, and tell it later when the
@@ -1031,6 +1038,7 @@ class Dilator:
     # connection) has shut down. Expects to fire T.stoppedD() when Dilator is
     # stopped too.
     def stop(self):
+        self._stopped = True
         if self._manager:
             self._manager.stop()
             # TODO: avoid Deferreds for control flow, hard to serialize
